@@ -102,7 +102,11 @@ def rtlfill(draw):
     one of its characters - in particular the cells at the two window edges"""
     cols = draw(st.integers(10, 60))
     L = 3 * cols + draw(st.integers(5, 40))
-    body = "".join(draw(st.lists(st.sampled_from("abcdefghijklmnopqrstuvwxyz0123456789"), min_size=L, max_size=L)))
+    body = draw(st.lists(st.sampled_from("abcdefghijklmnopqrstuvwxyz0123456789"), min_size=L, max_size=L))
+    for i in range(1, L):           # (no two equal neighbours: the character an x deletes is then identified by the first difference)
+        if body[i] == body[i - 1]:
+            body[i] = "A" if body[i - 1] != "A" else "B"
+    body = "".join(body)
     n = draw(st.integers(cols + 2, L - cols - 2))
     extra = draw(st.lists(st.sampled_from(["l", "h", "2l", "3h", "\x0c"]), max_size=3))
     return {"kind": "rtlfill", "lines": [body, "x"], "rows": draw(st.integers(3, 12)), "cols": cols, "keys": [":se td=%d\n" % draw(st.sampled_from([-2, -2, 2])),
@@ -157,7 +161,22 @@ def run_rtlfill(env, c):
     if blanks:
         return Outcome(False, True, ["rtlfill"], detail={"why": "cell(s) %s of the row are blank although the line covers the whole window" % blanks[:4], "row": row, "keys": c["keys"],
                                                         "cols": c["cols"], "line_length": len(c["lines"][0])})
-    return Outcome(True, True, ["rtlfill"])
+    # the terminal cursor sits on the cell that shows the character commands act on: the same keys followed by x delete exactly the
+    # character drawn under the cursor
+    body = c["lines"][0]
+    r2 = run_term(env, c, "x:w! out\n")
+    if r2.timeout or r2.crashed():
+        return Outcome(True, False, ["rtlfill", "second_run_inconclusive"], inconclusive=True)
+    out = runner.read_file(r2.dir, "out")
+    out = out.decode("utf-8", "replace").split("\n")[0] if out is not None else ""
+    if len(out) != len(body) - 1:
+        return Outcome(True, False, ["rtlfill", "second_run_inconclusive"], inconclusive=True)
+    p = next((i for i in range(len(out)) if out[i] != body[i]), len(out))
+    shown = te.row_text(te.r)[te.c:te.c + 1]
+    if te.r != 0 or shown != body[p]:
+        return Outcome(False, True, ["rtlfill"], detail={"why": "the terminal cursor (row %d, column %d) is on a cell showing %r, but commands act on character %d of the line, %r" %
+                                                        (te.r, te.c, shown, p + 1, body[p]), "keys": c["keys"], "cols": c["cols"], "row": te.row_text(0)})
+    return Outcome(True, True, ["rtlfill", "rtlfill_cursor_checked"])
 
 
 _tabs = {}
@@ -170,6 +189,7 @@ def run_term(env, c, extra_keys):
     stdin = ("".join(c["keys"]) + "\x1b\x1b" + extra_keys + "\x1c").encode("utf-8") + runner.VI_TRAILER
     r = runner.run_editor(env.paths["vi"], ["-v", "f"], stdin, d, rows=c["rows"], cols=c["cols"], want_stats=False,
                           env_extra={"LD_PRELOAD": env.paths["shim"], "NVFI_MARK": "1"})
+    r.dir = d
     return r
 
 
